@@ -112,6 +112,8 @@ func (x *Ex) genTables() string {
 		{"internal/pagination", "rxLinkNumberCleaner"},
 		{"internal/domutil", "rxPunctuation"}, {"internal/domutil", "rxTempNewline"}, {"internal/domutil", "rxDisplay"},
 		{"internal/domutil", "rxVisibilityHidden"}, {"internal/domutil", "rxSrcsetURL"},
+		{"internal/stringutil", "rxFullWordCounter"}, {"internal/stringutil", "rxLetterWordCounter"},
+		{"internal/stringutil", "rxWordMatcher1"}, {"internal/stringutil", "rxWordMatcher2"}, {"internal/stringutil", "rxWordMatcher3"},
 	})
 	x.tableVar(f, "internal/extractor/embed", "relevantTwitterTags", "relevantTwitterTags")
 	x.tableVar(f, "internal/extractor/embed", "relevantVimeoTags", "relevantVimeoTags")
